@@ -5,7 +5,7 @@
    srt  : what sort.Slice / slices.SortFunc do - ANY function returning a sorted permutation (not stable)
    ops  : the insertions uploadInputDir makes into the dirBuilder, in the order it makes them
    build: dirBuilder.Build = walk from the root: (messages sent, root message); root_digest = H root. *)
-From PlzV Require Import Base.Harness Model.C28 Proof.C28 Proof.C28_Ops Proof.C28_Gen Gen.DirWalk.
+From PlzV Require Import Base.Harness Model.C28 Proof.C28 Proof.C28_Ops Proof.C28_Gen Proof.C28_Disjoint Proof.C28_Action Gen.DirWalk.
 From Coq Require Import Permutation.
 
 (* what must hold of every set of declarations a file system can hold (realizable: names and path
@@ -16,8 +16,24 @@ Definition order_free (H : dirmsg -> str) (srt : sorter) (ops ops' : list op) : 
   /\ option_map snd (build H srt ops) = option_map snd (build H srt ops')     (* and the root message *)
   /\ build H srt ops <> None.                                                 (* Build terminates, no nil dereference *)
 
+(* The action digest (HC, HA: digests of the Command and Action messages; quote: shellescape.Quote; c: the
+   client's configuration) is the same for two runs of buildAction that differ in ANY call / enumeration /
+   declaration order: dirBuilder insertions, AddOutput calls, named-output map, target.Env, build
+   environment map - and the declaration order of the output directories and of the target's labels. *)
+Definition decl_perm_full (d d' : decl) : Prop :=
+  Permutation (d_ops d) (d_ops d') /\ Permutation (d_outs d) (d_outs d') /\ Permutation (d_named d) (d_named d')
+  /\ Permutation (d_tenv d) (d_tenv d') /\ (forall m, Permutation (d_env d m) (d_env d' m))
+  /\ Permutation (d_outdirs d) (d_outdirs d') /\ Permutation (d_labels d) (d_labels d')
+  /\ d_pkg d = d_pkg d' /\ d_cmd d = d_cmd d' /\ d_binary d = d_binary d' /\ d_sandbox d = d_sandbox d' /\ d_timeout d = d_timeout d'.
+
+Definition C28_action_statement : Prop :=
+  forall (H : dirmsg -> str) (HC : cmdmsg -> str) (HA : actmsg -> str) (srt : sorter) (quote : str -> str) (c : conf),
+    sorter_ok srt ->
+    forall d d', decl_perm_full d d' -> decl_ok d ->
+      action_digest H HC HA srt quote c d = action_digest H HC HA srt quote c d'.
+
 Definition C28_statement : Prop :=
-  forall (H : dirmsg -> str) (srt : sorter), sorter_ok srt ->
+  (forall (H : dirmsg -> str) (srt : sorter), sorter_ok srt ->
     (* the digests do not depend on the order in which the inputs were declared or discovered *)
     (forall ops ops', Permutation ops ops' -> realizable ops -> order_free H srt ops ops')
     (* every Directory message produced (sent to the CAS, and the root) is sorted by name without
@@ -25,30 +41,82 @@ Definition C28_statement : Prop :=
     /\ (forall ops em m, build H srt ops = Some (em, m) -> Forall canonical em /\ canonical m)
     (* the environment of the Command: sorted by name, independent of the map's enumeration order *)
     /\ (forall loc home e e', Permutation e e' -> NoDup (map fst e) ->
-          env_vars srt loc home e = env_vars srt loc home e' /\ lt_sorted fst (env_vars srt loc home e)).
+          env_vars srt loc home e = env_vars srt loc home e' /\ lt_sorted fst (env_vars srt loc home e))
+    (* for inputs a file system can hold, no name occurs in two kinds of a message either *)
+    /\ (forall ops em m, realizable ops -> build H srt ops = Some (em, m) -> Forall fully_canonical em /\ fully_canonical m))
+  (* and the action digest is independent of every declaration / enumeration order *)
+  /\ C28_action_statement.
 
 (* The code violates the first clause: an output directory p/x of a dependency (digest known) together
    with another input below p/x; whichever is inserted first wins (hasChild hides the other). *)
 Theorem C28_refuted : ~ C28_statement.
 Proof.
-  exact (fun HS => wit_differs (proj1 (proj1 (HS wit_H isort isort_ok) wit_ops wit_ops' (perm_swap _ _ _) wit_realizable))).
+  exact (fun HS => wit_differs (proj1 (proj1 (proj1 HS wit_H isort isort_ok) wit_ops wit_ops' (perm_swap _ _ _) wit_realizable))).
 Qed.
 Print Assumptions C28_refuted.
 
-(* Everything else holds: outside the one defect class the full statement is true. *)
+(* The action clause fails by itself, twice: the output directories go into Command.OutputPaths in
+   declaration order (after the sorted outputs), and the platform properties taken from the target's
+   labels go into Command.Platform and Action.Platform in declaration order; nothing sorts either.
+   (The harness observes both on the real buildCommand; recorded as notes of the evidence: the
+   declaration order of a target's own output_dirs / labels is part of the target's definition.) *)
+Lemma wit_outdirs_perm : decl_perm_full wit_outdirs_1 wit_outdirs_2.
+Proof. repeat split; try reflexivity; try (intros; reflexivity). apply perm_swap. Qed.
+Lemma wit_labels_perm : decl_perm_full wit_labels_1 wit_labels_2.
+Proof. repeat split; try reflexivity; try (intros; reflexivity). apply perm_swap. Qed.
+Lemma wit_decl_ok outdirs labels : decl_ok (wit_decl outdirs labels).
+Proof.
+  split; [apply wit_decl_realizable|split; [constructor|]]. intros m. cbn. constructor; [intros []|constructor].
+Qed.
+
+Theorem C28_refuted_command : ~ C28_action_statement.
+Proof.
+  exact (fun HS => wit_outdirs_differ (HS wit_H wit_HC wit_HA isort idk wit_conf isort_ok _ _ wit_outdirs_perm (wit_decl_ok _ _))).
+Qed.
+Print Assumptions C28_refuted_command.
+
+Theorem C28_refuted_platform : ~ C28_action_statement.
+Proof.
+  exact (fun HS => wit_labels_differ (HS wit_H wit_HC wit_HA isort idk wit_conf isort_ok _ _ wit_labels_perm (wit_decl_ok _ _))).
+Qed.
+Print Assumptions C28_refuted_platform.
+
+(* Everything else holds: outside the one defect class of the input root, and with the output directories
+   and labels declared in one order (decl_equiv), the full statement is true - for every hash function of
+   Directory, Command and Action messages, every sorter, every shell-quoting function and configuration. *)
 Theorem C28_partial :
-  forall (H : dirmsg -> str) (srt : sorter), sorter_ok srt ->
+  (forall (H : dirmsg -> str) (srt : sorter), sorter_ok srt ->
     (forall ops ops', Permutation ops ops' -> realizable ops -> defect_class ops = None -> order_free H srt ops ops')
     /\ (forall ops em m, build H srt ops = Some (em, m) -> Forall canonical em /\ canonical m)
     /\ (forall loc home e e', Permutation e e' -> NoDup (map fst e) ->
-          env_vars srt loc home e = env_vars srt loc home e' /\ lt_sorted fst (env_vars srt loc home e)).
+          env_vars srt loc home e = env_vars srt loc home e' /\ lt_sorted fst (env_vars srt loc home e))
+    /\ (forall ops em m, realizable ops -> build H srt ops = Some (em, m) -> Forall fully_canonical em /\ fully_canonical m))
+  /\ (forall (H : dirmsg -> str) (HC : cmdmsg -> str) (HA : actmsg -> str) (srt : sorter) (quote : str -> str) (c : conf),
+        sorter_ok srt ->
+        forall d d', decl_equiv d d' -> decl_ok d -> defect_class (d_ops d) = None ->
+          (* the action digest: equal, and buildAction does not fail *)
+          action_digest H HC HA srt quote c d = action_digest H HC HA srt quote c d'
+          /\ action_digest H HC HA srt quote c d <> None
+          (* the Command's environment is strictly sorted by name *)
+          /\ (forall root, lt_sorted fst (c_env (command_of srt quote c d root))))
+  (* target.outputs: strictly sorted whatever the AddOutput calls, and independent of their order *)
+  /\ (forall calls calls', Permutation calls calls' ->
+        declared_outputs calls = declared_outputs calls' /\ lt_sorted idk (declared_outputs calls)).
 Proof.
-  exact (fun H srt ok => conj
-    (fun ops ops' Hp Hr Hd =>
-       let Hno := defect_class_none ops Hd in
-       conj (proj1 (root_digest_perm H srt ok ops ops' Hp Hr Hno))
-         (conj (build_perm H srt ok ops ops' Hp Hr Hno) (build_total H srt ops Hno)))
-    (conj (build_canonical H srt ok) (env_order_free srt ok))).
+  exact (conj
+    (fun H srt ok => conj
+      (fun ops ops' Hp Hr Hd =>
+         let Hno := defect_class_none ops Hd in
+         conj (proj1 (root_digest_perm H srt ok ops ops' Hp Hr Hno))
+           (conj (build_perm H srt ok ops ops' Hp Hr Hno) (build_total H srt ops Hno)))
+      (conj (build_canonical H srt ok)
+        (conj (env_order_free srt ok)
+          (build_fully_canonical H srt ok))))
+    (conj
+      (fun H HC HA srt quote c ok d d' Heq Hok Hd =>
+         let A := action_digest_order_free H HC HA srt ok quote c d d' Heq Hok (defect_class_none _ Hd) in
+         conj (proj1 A) (conj (proj2 A) (fun root => command_env_sorted H srt ok quote c d root Hok)))
+      (fun calls calls' Hp => conj (declared_outputs_perm calls calls' Hp) (declared_outputs_sorted calls)))).
 Qed.
 Print Assumptions C28_partial.
 
@@ -100,3 +168,57 @@ Example C28_env_nonvacuous :
   env_vars isort (s "/opt/plz") (s "/home/u") [(s "PATH", s "/home/u/bin:/usr/bin:/opt/plz:/bin"); (s "B", s "2"); (s "A", s "1")]
   = [(s "A", s "1"); (s "B", s "2"); (s "PATH", s "/usr/bin:/bin")].
 Proof. vm_compute. reflexivity. Qed.
+
+(* the two action witnesses: admissible declarations that differ only in the declaration order of the output
+   directories (resp. of the platform labels); what the Command then carries; the digests differ *)
+Example C28_refuted_command_witness :
+  decl_perm_full wit_outdirs_1 wit_outdirs_2 /\ decl_ok wit_outdirs_1
+  /\ c_outs (command_of isort idk wit_conf wit_outdirs_1 empty_dir) = [s "zz"; s "b_dir"; s "a_dir"]
+  /\ c_outs (command_of isort idk wit_conf wit_outdirs_2 empty_dir) = [s "zz"; s "a_dir"; s "b_dir"]
+  /\ action_digest wit_H wit_HC wit_HA isort idk wit_conf wit_outdirs_1 <> None.
+Proof.
+  split; [exact wit_outdirs_perm|]. split; [apply wit_decl_ok|]. vm_compute. repeat split; discriminate.
+Qed.
+
+Example C28_refuted_platform_witness :
+  decl_perm_full wit_labels_1 wit_labels_2 /\ decl_ok wit_labels_1
+  /\ target_platform (d_labels wit_labels_1) (f_plat wit_conf) = [(s "size", s "big"); (s "arch", s "y"); (s "OSFamily", s "linux")]
+  /\ target_platform (d_labels wit_labels_2) (f_plat wit_conf) = [(s "arch", s "y"); (s "size", s "big"); (s "OSFamily", s "linux")].
+Proof.
+  split; [exact wit_labels_perm|]. split; [apply wit_decl_ok|]. vm_compute. repeat split.
+Qed.
+
+(* the action clause of C28_partial on two runs that differ in every order it quantifies over: insertions
+   reversed, AddOutput calls / named-output map / target.Env / build environment enumerated differently *)
+Definition ex_decl (ops : list op) (outs : list str) (named : list (str * list str)) (tenv e : env) : decl :=
+  DC ops outs named [s "od"; s "gen/**"] [s "remote-platform-property:size=big"; s "manual"] tenv (fun _ => e)
+     (s "pkg") (s "echo hi") true true 300.
+Definition ex_d1 := ex_decl ex_ops [s "zz"; s "./a"; s "pkg"] [(s "g1", [s "n1"]); (s "g2", [s "n2"])]
+                            [(s "B", s "x y"); (s "A", s "1")] [(s "PATH", s "/home/u/bin:/bin"); (s "NAME", s "t")].
+Definition ex_d2 := ex_decl (rev ex_ops) [s "pkg"; s "zz"; s "./a"] [(s "g2", [s "n2"]); (s "g1", [s "n1"])]
+                            [(s "A", s "1"); (s "B", s "x y")] [(s "NAME", s "t"); (s "PATH", s "/home/u/bin:/bin")].
+
+Example C28_partial_action_nonvacuous :
+  decl_ok ex_d1 /\ defect_class (d_ops ex_d1) = None
+  /\ c_outs (command_of isort idk wit_conf ex_d1 empty_dir) = [s "a"; s "n1"; s "n2"; s "pkg.out"; s "zz"; s "od"; s "gen"]
+  /\ c_env (command_of isort idk wit_conf ex_d1 empty_dir)
+     = [(s "NAME", s "t"); (s "PATH", s "/bin"); (s "SANDBOX", s "true"); (s "_BINARY", s "true")]
+  /\ action_digest wit_H wit_HC wit_HA isort idk wit_conf ex_d1 = action_digest wit_H wit_HC wit_HA isort idk wit_conf ex_d2
+  /\ action_digest wit_H wit_HC wit_HA isort idk wit_conf ex_d1 <> None
+  /\ ex_d1 <> ex_d2.
+Proof.
+  split; [|vm_compute; repeat split; discriminate].
+  split; [exact (proj1 C28_partial_nonvacuous)|]. split; cbn.
+  - repeat constructor; cbn; intuition discriminate.
+  - intros _. repeat constructor; cbn; intuition discriminate.
+Qed.
+
+(* the two runs are related by decl_equiv: every component is a permutation of its counterpart *)
+Example C28_partial_action_equiv : decl_equiv ex_d1 ex_d2.
+Proof.
+  unfold decl_equiv, ex_d1, ex_d2, ex_decl. cbn [d_ops d_outs d_named d_tenv d_env d_outdirs d_labels d_pkg d_cmd d_binary d_sandbox d_timeout].
+  split; [apply Permutation_rev|].
+  split; [exact (Permutation_app_comm [s "zz"; s "./a"] [s "pkg"])|].
+  split; [apply perm_swap|]. split; [apply perm_swap|]. split; [intros _; apply perm_swap|].
+  repeat split.
+Qed.
